@@ -563,8 +563,8 @@ class CallMixin:
             st.assume(z3.And(0 <= p, p < n))
             res = self.from_term(ek, A[p])
             self.assume_wf(st, res)
-            kp = self.key_term(kw["key"], res, st, node)
-            ki = self.key_term(kw["key"], self.from_term(ek, A[i]), st, node, z3.And(0 <= i, i < n))
+            ki = self.key_term(kw["key"], self.from_term(ek, A[i]), st, node, z3.And(0 <= i, i < n), i)
+            kp = V(ki.kind, z3.substitute(ki.term, (i, p)))
             _, tp, ti = ops.num_join(kp, ki)
             st.assume(z3.ForAll([i], z3.Implies(z3.And(0 <= i, i < n), (tp >= ti) if is_max else (tp <= ti))))
             cnt = self.max_counter = getattr(self, "max_counter", -1) + 1
@@ -637,18 +637,42 @@ class CallMixin:
             c = self.reg.contracts.get("sum_int", c)
         return self.apply_contract(c, a, kw, st, node)
 
-    def key_term(self, keyfn: V, elem: V, st, node, guard=None):
+    def key_term(self, keyfn: V, elem: V, st, node, guard=None, bound=None):
         """Value of key(elem) as a pure term (the key function must not change the heap).  Evaluated on a
         fork under `guard` (the element's index is in range), so obligations raised inside the key function
-        are obligations for every element."""
+        are obligations for every element.  Results of contract calls made by the key function are lifted to
+        functions of the bound index `bound`, and what their contracts promise is assumed for every index."""
         s2 = st.fork()
         if guard is not None:
             s2.assume(guard)
+        base = len(s2.pc)
         sig = s2.sig()
-        outs = list(self.call_value(keyfn, [elem], {}, s2, node))
+        self.comp_oracle_stack.append([])
+        try:
+            outs = list(self.call_value(keyfn, [elem], {}, s2, node))
+        finally:
+            consts = self.comp_oracle_stack.pop()
         if len(outs) != 1 or outs[0][1].sig() != sig:
             raise Unsupported("key function is not a pure, non-forking expression", node)
-        return outs[0][0]
+        val, s3 = outs[0]
+        facts = list(s3.pc[base:])
+        if val.kind not in (INT, REAL, BOOL):
+            raise Unsupported("non-numeric sort key", node)
+        t = val.term
+        if bound is None:
+            for f in facts:
+                st.assume(z3.Implies(guard, f) if guard is not None else f)
+            return val
+        subst = []
+        for c in consts:
+            arr = fresh("keyres", z3.ArraySort(I, c.sort()))
+            subst.append((c, arr[bound]))
+        if subst:
+            t = z3.substitute(t, *subst)
+            facts = [z3.substitute(f, *subst) for f in facts]
+        for f in facts:
+            st.assume(z3.ForAll([bound], z3.Implies(guard, f) if guard is not None else f))
+        return V(val.kind, t)
 
     def bi_sorted(self, args, kw, st, node):
         """sorted(xs, key=f, reverse=b): assumed contract -- a fresh list that is a permutation of xs (explicit
@@ -678,8 +702,8 @@ class CallMixin:
         st.assume(z3.ForAll([i], z3.Implies(rng(i), z3.And(rng(Pa[i]), Rr[i] == A[Pa[i]], Qa[Pa[i]] == i))))
         st.assume(z3.ForAll([i], z3.Implies(rng(i), z3.And(rng(Qa[i]), Pa[Qa[i]] == i, Rr[Qa[i]] == A[i]))))
         if keyfn is not None:
-            ki = self.key_term(keyfn, self.from_term(ek, Rr[i]), st, node, rng(i))
-            kj = self.key_term(keyfn, self.from_term(ek, Rr[j]), st, node, rng(j))
+            ki = self.key_term(keyfn, self.from_term(ek, Rr[i]), st, node, rng(i), i)
+            kj = V(ki.kind, z3.substitute(ki.term, (i, j)))
             _, ti, tj = ops.num_join(ki, kj)
         else:
             ti, tj = Rr[i], Rr[j]
